@@ -34,7 +34,9 @@ def check_cache(
 
     from hypergraph.cache import compute_cache_key
 
-    cache_key = compute_cache_key(f"{node.definition_hash}:{node.outputs}:{getattr(node, 'targets', None)}", inputs)
+    # Key on the wrapped function's own parameter names: renamed inputs must not
+    # make different argument bindings of one function look identical
+    cache_key = compute_cache_key(f"{node.definition_hash}:{node.outputs}:{getattr(node, 'targets', None)}", node.map_inputs_to_params(inputs))
     if not cache_key:
         return "", None
 
